@@ -90,6 +90,9 @@ def rand_request(rng, path):
         else:
             hdrs.insert(rng.randrange(0, len(hdrs) + 1), (rng.choice(CL_SPELLINGS), b'%d' % n))
     version = b'HTTP/1.1' if rng.random() < 0.9 else b'HTTP/1.0'
+    if not body and rng.random() < 0.06:       # websocket upgrade: ReverseProxy.do_upgrade() is False, so it is routed like any request
+        hdrs = [h for h in hdrs if h[0].lower() != b'connection']
+        hdrs += [(b'Connection', b'Upgrade'), (b'Upgrade', rng.choice([b'websocket', b'WebSocket'])), (b'Sec-WebSocket-Key', b'dGhlIHNhbXBsZSBub25jZQ==')]
     return dict(method=method, target=path, version=version, headers=[[k, v] for k, v in hdrs], body=body, chunked=chunked)
 
 
@@ -629,3 +632,187 @@ def nontrivial(case, out):
 
 def classify(case, out, failure):
     return None
+
+
+# ----------------------------------------------------------------- shrinking, search
+def shrink(case, fails):
+    """greedy: drop reads / cut / headers / body / non-essential routes and URLs while the oracle still fails"""
+    import copy
+    cur = copy.deepcopy(case)
+
+    def attempt(mod):
+        t = copy.deepcopy(cur)
+        try:
+            mod(t)
+        except Exception:
+            return None
+        return t if fails(t) else None
+
+    changed = True
+    rounds = 0
+    while changed and rounds < 6:
+        changed = False
+        rounds += 1
+        cands = [lambda t: t.update(cut=None), lambda t: t.update(connect='ok')]
+        if cur.get('reads'):
+            cands.append(lambda t: t.update(reads=[]))
+            cands.append(lambda t: t.update(reads=[b''.join(x for x in t['reads'] if not isinstance(x, str))]))
+        for i in range(len(cur['request']['headers'])):
+            cands.append(lambda t, i=i: t['request']['headers'].pop(i))
+        if cur['request']['body'] and not cur['request']['chunked']:
+            def nobody(t):
+                t['request']['body'] = b''
+                t['request']['headers'] = [h for h in t['request']['headers'] if h[0].lower() != b'content-length']
+            cands.append(nobody)
+        for pi, p in enumerate(cur['plugins']):
+            if len(cur['plugins']) > 1:
+                cands.append(lambda t, pi=pi: t['plugins'].pop(pi))
+            for ri, r in enumerate(p['routes']):
+                if len(p['routes']) > 1:
+                    cands.append(lambda t, pi=pi, ri=ri: t['plugins'][pi]['routes'].pop(ri))
+                if r['type'] == 'static' and len(r['urls']) > 1:
+                    for ui in range(len(r['urls'])):
+                        cands.append(lambda t, pi=pi, ri=ri, ui=ui: t['plugins'][pi]['routes'][ri]['urls'].pop(ui))
+        for f in cands:
+            t = attempt(f)
+            if t is not None:
+                cur = t
+                changed = True
+                break
+    return cur
+
+
+def search(rng, tier, mismatching_cases):
+    """the correspondence broke: look for an input on which the implementation violates the property itself"""
+    n = 3000 if tier != 'thorough' else 20000
+    pool = list(mismatching_cases)
+    for i in range(n):
+        c = pool[i] if i < len(pool) else mk_case(rng, rng.choice(['none', 'one', 'several']))
+        try:
+            out = run_impl(c)
+        except Exception:
+            continue
+        f = oracle(c, out)
+        if f:
+            return c, f
+    return None
+
+
+# ----------------------------------------------------------------- exploration beyond the theorems' scope
+def run_conversation(conv):
+    """several requests over ONE client connection (outside the scope of the theorems: exploration only)"""
+    import sim, logging
+    classes = [mk_plugin_class(i, p) for i, p in enumerate(conv['plugins'])]
+    args = ['--enable-reverse-proxy', '--log-level', 'c'] + (['--rewrite-host-header'] if conv['rewrite'] else [])
+    fl = sim.make_flags(args=args, plugins=classes)
+    logging.disable(logging.CRITICAL)
+    draws = list(conv['draws'])
+
+    def choice(seq):
+        r = draws.pop(0) if draws else 0
+        return seq[r % len(seq)]
+
+    def wrap(self, hostname=None, ca_file=None, as_non_blocking=False, **kw):
+        pass
+
+    obs = dict(steps=[])
+    with mock.patch('random.choice', choice), mock.patch('proxy.core.connection.server.TcpServerConnection.wrap', wrap), \
+         sim.Sim(flags=fl) as s:
+        try:
+            if conv.get('packing') == 'one-segment':
+                s.client.feed(b''.join(wire(r) for r in conv['requests']))
+                res = s.run()
+                obs['steps'].append(dict(res=repr(res), n_up=len(s.upstreams), up_out=[u.out for u in s.upstreams]))
+            else:
+                for i, rq in enumerate(conv['requests']):
+                    if s.torn:
+                        break
+                    before_c = len(s.client.out)
+                    s.client.feed(wire(rq))
+                    res = s.run()
+                    st = dict(res=repr(res), n_up=len(s.upstreams), answered=len(s.client.out) > before_c)
+                    if s.upstreams and not s.torn and i < len(conv['responses']):
+                        before = len(s.client.out)
+                        n_before = len(s.upstreams[-1].out)
+                        s.upstreams[-1].feed(conv['responses'][i])
+                        st['res2'] = repr(s.run())
+                        st['relayed'] = s.client.out[before:] == conv['responses'][i]
+                    st['up_out'] = [u.out for u in s.upstreams]
+                    st['up_closed'] = [u.closed for u in s.upstreams]
+                    st['interest'] = dict(s.interest()[0]) if not s.torn else {}
+                    obs['steps'].append(st)
+        except Exception as e:
+            obs['exception'] = repr(e)
+        if not s.torn:
+            try:
+                s.teardown()
+            except Exception as e:
+                obs['teardown_exc'] = repr(e)
+        obs['up_closed_end'] = [u.closed for u in s.upstreams]
+        obs['connect_log'] = [list(x) for x in s.connect_log]
+        obs['client'] = s.client.out
+        obs['trace'] = [list(t) for t in s.trace]
+    logging.disable(logging.NOTSET)
+    return obs
+
+
+def extra_checks(rng, tier):
+    import collections
+    quick = tier != 'thorough'
+    failures, notes = [], []
+    # (1) the property oracle alone (no Coq) on many more first requests: a cheap failing-input search
+    n = 1500 if quick else 30000
+    kinds = collections.Counter()
+    for i in range(n):
+        c = mk_case(rng, rng.choice(['none', 'one', 'one', 'several', 'several']))
+        c['kind'] = 'oracle-only/' + c['kind']
+        try:
+            out = run_impl(c)
+        except Exception as e:
+            failures.append(dict(case=c, out=None, what='harness could not drive the implementation: %r' % e))
+            break
+        f = oracle(c, out)
+        kinds[c['kind']] += 1
+        if f:
+            failures.append(dict(case=c, out=out, what=f))
+            if len(failures) >= 3:
+                break
+    # (2) conversations: 2-3 requests on one client connection (known defect territory; observations only)
+    stats = collections.Counter()
+    resp = b'HTTP/1.1 200 OK\r\nContent-Length: 2\r\n\r\nhi'
+    nconv = 40 if quick else 600
+    tries = 0
+    while stats['conversations'] < nconv and tries < 50 * nconv:
+        tries += 1
+        c = mk_case(rng, 'one')
+        if any(r['type'] != 'static' for p in c['plugins'] for r in p['routes']) or len(c['plugins']) != 1:
+            continue
+        rq1 = dict(c['request'], method=b'GET', headers=[[b'Host', b'me.example']], body=b'', chunked=False, version=b'HTTP/1.1')
+        second = rng.choice(['same', 'other-path'])
+        rq2 = dict(rq1) if second == 'same' else dict(rq1, target=rng.choice(PATHS))
+        n2 = n_matching(c['plugins'], rq2['target'])
+        packing = 'separate' if rng.random() < 0.75 else 'one-segment'
+        conv = dict(plugins=c['plugins'], rewrite=c['rewrite'], draws=[0] * 6, requests=[rq1, rq2], responses=[resp, resp], packing=packing)
+        o = run_conversation(conv)
+        stats['conversations'] += 1
+        if 'exception' in o:
+            stats['exception: ' + o['exception'][:60]] += 1
+            continue
+        if packing == 'one-segment':
+            stats['one-segment: %d upstream(s) opened, second request %s' % (
+                o['steps'][0]['n_up'], 'forwarded' if len(o['connect_log']) > 1 or any(x.count(b'HTTP/1.') > 1 for x in o['steps'][0]['up_out']) else 'not forwarded')] += 1
+            continue
+        if len(o['steps']) < 2:
+            stats['torn down after first request'] += 1
+            continue
+        s2 = o['steps'][1]
+        if n2 >= 1:
+            stats['2nd request matches a route: new upstream connection opened = %s, old upstream socket closed at the end = %s, forwarded+relayed = %s' % (
+                s2['n_up'] == 2, o['up_closed_end'][0] if o['up_closed_end'] else None, bool(s2.get('relayed')) and s2['n_up'] == 2 and bool(s2['up_out'][-1]))] += 1
+        elif n2 == 0:
+            stats['2nd request matches no route: client answered (404) = %s, outbound connection = %s' % (s2['answered'], s2['n_up'] > 1)] += 1
+        else:
+            stats['2nd request path undecodable'] += 1
+    notes.append('oracle-only sweep: %d further first-request cases, %d failures; kinds %s' % (sum(kinds.values()), len(failures), dict(kinds)))
+    notes.append('multi-request exploration (outside the theorems, known defect owned by C04/C10): ' + json.dumps(dict(stats), sort_keys=True))
+    return dict(failures=failures, notes=notes, oracle_only_cases=sum(kinds.values()), conversation_stats=dict(stats))
